@@ -7,24 +7,43 @@ Tie / search:
      emission order, returned value / found weight as hex floats) with the extracted SignedFloatModel = SignedModel.v
      instantiated with Coq's primitive floats (ExtrOCamlFloats -> Float64 of Coq's kernel = OCaml's IEEE doubles); the BFS
      root order and the pointer order of the edge descriptors are recovered from the run (harness/c09.cpp, -ffp-contract=off).
+ (E) the tree-based variants on the same inexact inputs, against the extracted TreesFloatModel (LexSPModel / CandidatesModel /
+     TreesModel instantiated with PrimFloat + the three float-faithful pieces documented there), all doubles as hex floats:
+       T  every SPTree field (node?, weight, pred edge, parent, first-in-path label) of every source;
+       C  the Horton / FVS / isometric collections in emission order with their recorded weights (pick oracle of greedy_fvs =
+          the emitted feedback vertex set);
+       A  whole runs of mcb_sva_fvs_trees / mcb_sva_iso_trees: cycles in emission order (an EMPTY cycle included: the model's run
+          goes on exactly as the code does) and the returned double; the arrangement std::sort leaves the candidates in is the
+          one oracle, recovered by the harness running the same builder + the same std::sort call on the same sequence (the model
+          checks that it is a permutation and non-decreasing in the recorded weight: MODEL-BADORDER otherwise);
+       L  the per-phase (found, cycle, weight) of every such run: the real ShortestOddCycleLookup is called directly on the signed
+          edge sets of the model's phases (and on random signed sets) and must answer what the model's phase answered;
+       acc the acceptance model of TreesModel.v must accept every run without empty cycle (its total may differ in the last bits:
+          candidates with equal recorded weight and the same edge set can compute different sums — counted, not an error).
  (A) every answer of mcb_sva_signed / mcb_sva_fvs_trees / mcb_sva_iso_trees is judged against the property text in EXACT
      rational arithmetic (fractions.Fraction on the exact values of the doubles; all doubles are dyadic, so the graph is scaled
      to integers): m-n+c simple cycles of the input graph, GF(2)-independent; |ret - exact sum of the emitted cycles| <= 1e-9
      relative; ret within relative 1e-9 of the TRUE minimum computed by an own Horton + Gauss oracle.
 Known findings (known_findings.d/C09.json): D9 — mcb_sva_iso_trees on weights outside the exact domain may emit an EMPTY cycle and
 return a weight BELOW the optimum; D9b — same cause, cycle space dimension >= 2: a VALID basis whose weight is ABOVE the optimum.
+D9c — mcb_sva_iso_trees_tbb adds numeric_limits::max for every phase whose lookup came up empty (returned value != sum; with two or more such
+phases the returned value is +inf: kind 'not finite', matched only for runs that return +inf and emit at least two empty cycles).
 A failure is a KNOWN-FINDING only if (entry point iso) and (weights outside the exact domain) and (its kind is listed in an entry);
-the stored minimal witnesses are replayed on every run (stale => NOTE, never silent).  Any other failure is a VIOLATION: signed / fvs,
+the stored minimal witnesses are replayed on every run (stale => NOTE, never silent).  Every matched run must in addition be PREDICTED
+by the binary64 model (sequential iso: the model's run is bit-identical, empty cycles included; iso_tbb: replaying the run's own cycles,
+the model's lookup comes up empty exactly at the phases with an empty cycle / the model's sequential run shows the same kind); a matched
+run the model does not predict is a VIOLATION (correspondence).  Any other failure is a VIOLATION: signed / fvs,
 iso on exact-domain weights, an invalid non-empty cycle, wrong count, dependent cycles, returned value != sum of the emitted cycles."""
 import json, os, re, shutil, glob, heapq
 from fractions import Fraction
 import lib, gen, mcb_oracle as O
 
 PID = "C09"
-THEOREMS = ["Properties_C09.v"]
+THEOREMS = ["Properties_C09.v", "Properties_C09_sum.v"]
 GROUP = "c09"
 HARNESS = dict(name="c09", srcs=["c09.cpp"], flags=["-ffp-contract=off"], libs=["-ltbb", "-lboost_timer"])
-KEYS = ["ROOTS", "EORD", "RET", "N", "CYC", "W"]
+KEYS = ["ROOTS", "EORD", "FVS", "ORD", "RET", "N", "CYC", "W", "FND", "SG"]
+TREE_ALGS = ("fvs", "iso")
 ALGS = ["signed", "fvs", "iso"]
 TBB_ALGS = ["signed_tbb", "fvs_tbb", "iso_tbb"]      # real oneTBB; judged only (which tied cycle is kept depends on the schedule)
 TOL = Fraction(1, 10 ** 9)
@@ -50,10 +69,11 @@ def ensure_model_c09():
     exe = os.path.join(lib.BUILD, "model" + sfx)
     if os.path.exists(exe) and os.path.exists(stamp) and open(stamp).read() == key:
         return True, ""
-    # the model needs only SignedFloatModel.vo and what it requires
-    if not os.path.exists(os.path.join(lib.THEORIES, "SignedFloatModel.vo")) or \
-            os.path.getmtime(os.path.join(lib.THEORIES, "SignedFloatModel.vo")) < os.path.getmtime(os.path.join(lib.THEORIES, "SignedFloatModel.v")):
-        lib.coq_make()
+    # the model needs only SignedFloatModel.vo, TreesFloatModel.vo and what they require
+    for mod in ("SignedFloatModel", "TreesFloatModel"):
+        vo, v = os.path.join(lib.THEORIES, mod + ".vo"), os.path.join(lib.THEORIES, mod + ".v")
+        if not os.path.exists(vo) or os.path.getmtime(vo) < os.path.getmtime(v):
+            lib.coq_make(targets=["theories/%s.vo" % mod])
     rc, so, se = lib.sh(["coqc", "-Q", lib.THEORIES, "Parmcb", ex_v], cwd=od, timeout=1200)
     if rc != 0:
         lib.coq_make()
@@ -120,7 +140,7 @@ def in_exact_domain(ws):
 
 
 DEC10 = [k / 10 for k in range(1, 10)]
-WSTYLES = ["d4", "d4", "dec10", "dec10", "dec100", "const", "two", "rand", "rand", "randlog", "nearint", "neartie", "neartie", "exact"]
+WSTYLES = ["d4", "d4", "dec10", "dec10", "dec100", "const", "two", "rand", "rand", "randlog", "nearint", "neartie", "neartie", "exact", "sum3"]
 
 
 def weigh_f(rng, g, style=None):
@@ -138,6 +158,7 @@ def weigh_f(rng, g, style=None):
         b = rng.choice([0.6667, 1e-3, 2e-3, 0.1, 3.3, 123.456, 999.0]); d = rng.choice([1e-8, 3e-8, 1e-7, 1e-10 / b])   # below single precision
         js = list(range(m)); rng.shuffle(js)
         ws = [b * (1 + j * d) if rng.random() < 0.8 else 2 * b * (1 + j * d) for j in js]
+    elif style == "sum3": pool = [0.1, 0.2, 0.3, 0.4, 0.6]; ws = [rng.choice(pool) for _ in range(m)]     # 0.1+0.2 > 0.3, 0.2+0.4 > 0.6, 0.1+0.3 = 0.4 after rounding
     elif style == "nearint": ws = [rng.randint(1, 5) + rng.choice([0, 0, 1e-9, -1e-9, 2 ** -40]) for _ in range(m)]
     else: pool = [0.25, 0.5, 0.75, 1.0, 1.5, 2.0, 3.0]; ws = [rng.choice(pool) for _ in range(m)]       # exact domain
     ws = [min(1e3, max(1e-3, w)) for w in ws]
@@ -176,6 +197,20 @@ def alg_cases(rng, tier):
             cases.append(("A %s %s" % (alg, gt), style))
         if rng.random() < 0.35:
             for alg in TBB_ALGS: cases.append(("A %s %s" % (alg, gt), style))
+    return cases
+
+
+def tree_extra_cases(rng, tier):
+    """further graphs for the two tree-based entry points only (their model is cheap): somewhat larger, inexact styles only"""
+    ng = 700 if tier == "quick" else 6000
+    maxn = 14 if tier == "quick" else 30
+    cases = []
+    for i in range(ng):
+        g = tie_rich(rng, maxn) if rng.random() < 0.6 else gen.structural(rng, maxn)
+        g, style = weigh_f(rng, g, rng.choice(["d4", "dec10", "dec100", "two", "rand", "randlog", "neartie", "sum3", "const"]))
+        gt = ftokens(g)
+        for alg in TREE_ALGS:
+            cases.append(("A %s %s" % (alg, gt), style))
     return cases
 
 
@@ -285,7 +320,7 @@ def canon(line):
     try: ret, cycles = parse_out(line)
     except Exception: return line
     def k(x): return (0, x) if isinstance(x, int) else (1, str(x))
-    return ("RET %s N %d CYC %s" % (ret.hex(), len(cycles), " ".join("%d %s" % (len(c), " ".join(map(str, sorted(c, key=k)))) for c in cycles))).strip()
+    return " ".join(("RET %s N %d CYC %s" % (ret.hex(), len(cycles), " ".join("%d %s" % (len(c), " ".join(map(str, sorted(c, key=k)))) for c in cycles))).split())
 
 
 def canon_model(line):
@@ -347,6 +382,106 @@ def model_case_of(case, impl):
     return "%s %d %s %d %s" % (" ".join(t[2:]), len(roots), " ".join(roots), len(eord), " ".join(eord))
 
 
+def normhex(line):
+    return " ".join(hexnorm(x) if x.startswith(("0x", "-0x")) else x for x in line.split())
+
+
+def trees_model_case(case, impl):
+    """'A fvs|iso <graph>' + the harness line -> case of the model entry `run`: alg graph roots picks order"""
+    t = case.split(); alg = t[1]
+    f = lib.fields(impl, KEYS)
+    roots, fvs, order = f.get("ROOTS", []), f.get("FVS", []), f.get("ORD", [])
+    picks = fvs if alg == "fvs" else []
+    return "%s %s %d %s %d %s %d %s" % (alg, " ".join(t[2:]), len(roots), " ".join(roots), len(picks), " ".join(picks), len(order), " ".join(order))
+
+
+def cycles_tokens(cycles):
+    return "%d %s" % (len(cycles), " ".join("%d %s" % (len(c), " ".join(map(str, sorted(c)))) for c in cycles))
+
+
+def replay_model_case(case, impl, cycles):
+    """case of the model entries `accept` / `explain`: alg graph roots picks (the run's cycles, each sorted)"""
+    t = case.split(); alg = t[1][:3]
+    f = lib.fields(impl, KEYS)
+    roots, fvs = f.get("ROOTS", []), f.get("FVS", [])
+    picks = fvs if alg == "fvs" else []
+    return "%s %s %d %s %d %s %s" % (alg, " ".join(t[2:]), len(roots), " ".join(roots), len(picks), " ".join(picks), cycles_tokens(cycles))
+
+
+def parse_go(mline):
+    """the model's run line 'RET h N k CYC .. W h*k FND b*k SG (len ids)*k' -> (ret, cycles, weights, found, signed sets) or None"""
+    t = mline.split()
+    if not t or t[0] != "RET" or "W" not in t or "FND" not in t or "SG" not in t: return None
+    try:
+        ret, cycles = parse_out(" ".join(t[:t.index("W")]))
+        k = len(cycles)
+        iw = t.index("W"); ws = t[iw + 1:iw + 1 + k]
+        ifd = t.index("FND"); fnd = t[ifd + 1:ifd + 1 + k]
+        p = t.index("SG") + 1; sgs = []
+        for _ in range(k):
+            L = int(t[p]); sgs.append(t[p + 1:p + 1 + L]); p += 1 + L
+        if len(ws) != k or len(fnd) != k: return None
+        return ret, cycles, ws, fnd, sgs
+    except Exception:
+        return None
+
+
+def lookup_answers(line):
+    """'.. L q (F hexw len ids | NF hexw len)*q' -> list of canonical strings, or None"""
+    t = line.split()
+    if "L" not in t: return None
+    try:
+        p = t.index("L"); q = int(t[p + 1]); p += 2; out = []
+        for _ in range(q):
+            tag, w, L = t[p], t[p + 1], int(t[p + 2]); ids = t[p + 3:p + 3 + L]; p += 3 + L
+            if tag not in ("F", "NF") or len(ids) != L: return None
+            out.append("%s %s %s" % (tag, hexnorm(w), " ".join(ids)))
+        return out
+    except Exception:
+        return None
+
+
+def phase_answers(go):
+    """what the lookup must have answered in every phase of a model run"""
+    _, cycles, ws, fnd, _ = go
+    return ["%s %s %s" % ("F" if f == "1" else "NF", hexnorm(w), " ".join(map(str, cy))) for cy, w, f in zip(cycles, ws, fnd)]
+
+
+def lookup_case(alg, sets, gt):
+    return "L %s %d %s %s" % (alg, len(sets), " ".join("%d %s" % (len(sg), " ".join(map(str, sg))) for sg in sets), gt)
+
+
+def lookup_model_case(case, impl):
+    """'L alg q sets graph' + the harness line (FVS / ORD oracles) -> case of the model entry `lookup`"""
+    t = case.split(); alg = t[1]
+    f = lib.fields(impl, KEYS + ["L"])
+    fvs, order = f.get("FVS", []), f.get("ORD", [])
+    picks = fvs if alg == "fvs" else []
+    return "%s %d %s %d %s" % (" ".join(t[1:]), len(picks), " ".join(picks), len(order), " ".join(order))
+
+
+def strip_strict(mline):
+    t = mline.split()
+    if "STRICT" in t:
+        return " ".join(t[:t.index("STRICT")]), t[t.index("STRICT") + 1] if t.index("STRICT") + 1 < len(t) else "?"
+    return mline, "?"
+
+
+def cands_model_case(case, impl):
+    """'C <graph>' + the harness line -> case of the model entry `cands` (pick oracle = the sources of the F trees)"""
+    t = impl.split()
+    picks = []
+    try:
+        p = t.index("F"); k = int(t[p + 1]); p = p + 2 + 3 * k
+        if t[p] == "T":
+            nt = int(t[p + 1]); n = int(case.split()[1]); p += 2
+            for _ in range(nt):
+                picks.append(t[p]); p += 1 + n
+    except Exception:
+        pass
+    return "%s %d %s" % (" ".join(case.split()[1:]), len(picks), " ".join(picks))
+
+
 def check_model_weights(mline, n, es):
     """the model's per-phase weights: the returned value is their left-to-right binary64 sum (C09_returned_value_is_fold on the
     extracted code) and each is the rounded weight of its cycle. returns None or a reason"""
@@ -385,14 +520,60 @@ def applies(f, alg):
     return alg == "iso_tbb" if f.get("entry") == "iso_tbb" else alg in ("iso", "iso_tbb")
 
 
-def is_known(fk, alg, es, kind):
-    """a failure is known only for (entry point iso / iso_tbb as recorded) x (weights outside the exact domain) x (a listed kind)"""
-    return alg in ("iso", "iso_tbb") and any(applies(f, alg) for f in fk.get(kind, [])) and not in_exact_domain([w for _, _, w in es])
+KIND_NOTFINITE = "not finite"
+
+
+def is_known(fk, alg, es, kind, impl=None):
+    """a failure is known only for (entry point iso / iso_tbb as recorded) x (weights outside the exact domain) x (a listed kind).
+    'not finite' (D9c with two or more empty lookups: numeric_limits::max added twice) additionally needs the run itself: it must return
+    +inf and emit at least two empty cycles."""
+    if not (alg in ("iso", "iso_tbb") and any(applies(f, alg) for f in fk.get(kind, [])) and not in_exact_domain([w for _, _, w in es])):
+        return False
+    if kind == KIND_NOTFINITE:
+        try: ret, cycles = parse_out(impl or "")
+        except Exception: return False
+        return ret == float("inf") and sum(1 for cy in cycles if not cy) >= 2
+    return True
+
+
+def model_explains(case, impl, kinds, n, es, optc, seq_model_line=None):
+    """does the binary64 trees model predict the failure `kinds` of this run of iso / iso_tbb?  returns a description or None.
+    iso: the model's whole run (std::sort order recovered from the run) is bit-identical to the implementation's, empty cycles included.
+    iso_tbb (which tied cycle is kept depends on the schedule; not compared exactly): an empty cycle is predicted iff, replaying the run's own
+    cycles, the model's lookup comes up empty exactly at the phases where the run emitted an empty cycle; a wrong weight without empty cycle
+    iff the model's SEQUENTIAL run on the same graph shows the same kind."""
+    t = case.split(); alg = t[1]
+    if " RET " not in " " + impl: return None
+    try: ret, cycles = parse_out(impl)
+    except Exception: return None
+    if alg == "iso":
+        m = lib.run_model("run", [trees_model_case(case, impl)], par=1, group=GROUP)[0]
+        if canon(impl) != canon_model(m): return None
+        go = parse_go(m)
+        if go is None: return None
+        if KIND_EMPTY in kinds and "0" not in go[3]: return None
+        return "model run bit-identical (phases without answer: %s)" % [j for j, f in enumerate(go[3]) if f == "0"]
+    if alg == "iso_tbb":
+        empties = [j for j, cy in enumerate(cycles) if not cy]
+        if empties:
+            if any(not isinstance(x, int) for cy in cycles for x in cy): return None
+            m = lib.run_model("explain", [replay_model_case(case, impl, cycles)], par=1, group=GROUP)[0]
+            tm = m.split()
+            if not tm or tm[0] != "EXPLAINED": return None
+            if [j for j, b in enumerate(tm[1:]) if b == "0"] != empties: return None
+            return "replaying the run's cycles, the model's lookup is empty at phases %s" % empties
+        if seq_model_line is None:
+            io = lib.run_lines([os.path.join(lib.BUILD, "c09")], ["A iso " + " ".join(t[2:])], par=1)[0]
+            seq_model_line = lib.run_model("run", [trees_model_case("A iso " + " ".join(t[2:]), io)], par=1, group=GROUP)[0]
+        mk = {k for k, _ in judge(n, es, canon_model(seq_model_line), optc)}
+        if kinds <= mk: return "the model's sequential run on the same graph shows the same kind(s)"
+        return None
+    return None
 
 
 def replay_witnesses(c, exe, fk, hits):
     """run the stored witnesses of every entry (5 times each: the outcome must not depend on the heap layout); stale => NOTE"""
-    seen = set(); nw = 0
+    seen = set(); nw = 0; explained = {}
     for f in [x for fl in fk.values() for x in fl]:
         if f["id"] in seen: continue
         seen.add(f["id"])
@@ -412,7 +593,7 @@ def replay_witnesses(c, exe, fk, hits):
                 if l != w: continue
                 ks = {k for k, _ in judge(n, es, o, optc)}
                 kinds |= ks if ks else {None}
-            other = {k for k in kinds if k is not None and not is_known(fk, t[1], es, k)}
+            other = {k for k in kinds if k is not None and not all(is_known(fk, t[1], es, k, o) for l, o in zip(lines, outs) if l == w)}
             if other:
                 c.violation("known finding %s: the stored witness now fails in another way: %s" % (f["id"], sorted(other)),
                             {"component": "c09", "case": w, "kind": "witness"}, True)
@@ -424,7 +605,16 @@ def replay_witnesses(c, exe, fk, hits):
                 c.notes.append(msg); print("NOTE: property=C09 " + msg)
             for k in kinds & kinds_f:
                 h = hits.setdefault(k, [0, w]); h[0] += 1
+            # the binary64 model must predict the stored failure
+            o0 = [o for l, o in zip(lines, outs) if l == w][0]
+            how = model_explains(w, o0, kinds & kinds_f, n, es, optc)
+            explained.setdefault(f["id"], []).append(how or "NOT PREDICTED")
+            if how is None and (kinds & kinds_f):
+                c.violation("known finding %s: the binary64 trees model does not predict the failure of the stored witness (the finding is observed, not explained)" % f["id"],
+                            {"component": "c09", "case": w, "impl": o0, "kind": "witness-model",
+                             "theorem_or_correspondence": "correspondence c09/trees: TreesFloatModel.tf_mcb_sva_trees_go / tf_mcb_sva_trees_explain vs harness/c09.cpp"}, False)
     c.extra["known_finding_witnesses_replayed"] = nw
+    c.extra["known_finding_witnesses_predicted_by_model"] = explained
 
 
 # --------------------------------------------------------------------------------------------------------------
@@ -432,8 +622,10 @@ def check(tier, seed):
     c = lib.Check(PID, tier, seed, THEOREMS)
     c.rule = ("(entry point in {signed, fvs_trees, iso_trees}) x simple graph (55% tie-rich families: grids, hypercubes, K_ab, wheels, cycles, theta, K_n; else the "
               "structured/random families of gen.structural) x double weights in [1e-3,1e3] (decimal grids with few distinct values, constant, two values, random "
-              "uniform / log-uniform doubles, near-integers, dyadic = exact domain); all 4-cycles on a 0.1-grid; direct bidirectional_signed_dijkstra calls with "
-              "rounded limits; distinct by md5; non-trivial = cycle space dimension >= 2 (algorithm runs) or a found path (search calls)")
+              "uniform / log-uniform doubles, near-integers, tie-prone sums such as 0.1+0.2 vs 0.3, dyadic = exact domain); all 4-cycles on a 0.1-grid; direct "
+              "bidirectional_signed_dijkstra calls with rounded limits; for every graph: all shortest-path trees, the three candidate collections, whole runs of the two "
+              "tree-based entry points, direct ShortestOddCycleLookup calls on the signed edge sets of every phase and on random signed sets; distinct by md5; "
+              "non-trivial = cycle space dimension >= 2 (algorithm runs) or a found path / cycle (search and lookup calls)")
     c.step_prove()
     ok = step_model(c)
     exe = c.harness(**HARNESS)
@@ -449,6 +641,7 @@ def check(tier, seed):
     bcases = [cs for cs in lib.corpus_cases(PID) if cs.startswith("B ")]
     c.extra["corpus_cases"] = len(acases) + len(bcases)
     acases += alg_cases(c.rng, tier)
+    acases += tree_extra_cases(c.rng, tier)
     acases += small_cycle_cases() if tier == "thorough" else small_cycle_cases()[::7]
     bcases += bidir_cases(c.rng, tier)
     lines = [a[0] for a in acases]
@@ -471,6 +664,12 @@ def check(tier, seed):
         if canon_model(model_out[i]) != canon_model(p):
             report("plain", i, "extracted mcb_sva_signed_F and mcb_sva_signed_F_w disagree (FloatProofs.mcb_sva_signed_w_fst on the extracted code)", False,
                    {"theorem_or_correspondence": "extraction of SignedFloatModel", "plain": p})
+    # ---- E-level: the tree-based variants, whole runs against the binary64 trees model --------------------------------------
+    tidx = [i for i, l in enumerate(lines) if l.split()[1] in TREE_ALGS and " RET " in io[i]]
+    tmo = lib.run_model("run", [trees_model_case(lines[i], io[i]) for i in tidx], group=GROUP)
+    tmodel = dict(zip(tidx, tmo))
+    seq_iso = {" ".join(lines[i].split()[2:]): tmodel[i] for i in tidx if lines[i].split()[1] == "iso"}     # graph -> the model's sequential iso run
+    ntrees_bit = 0; known_runs = []
     optcache = {}
     nexact = 0; nbit = 0
     for i, l in enumerate(lines):
@@ -485,8 +684,9 @@ def check(tier, seed):
             return optcache[key]
         probs = judge(n, es, io[i], optc)
         for kind, msg in probs:
-            if is_known(fk, alg, es, kind):
+            if is_known(fk, alg, es, kind, io[i]):
                 h = hits.setdefault(kind, [0, l]); h[0] += 1
+                known_runs.append((i, kind))
             else:
                 dom = "" if not exactdom else " (weights in the EXACT domain)"
                 report("judge " + kind, i, "mcb_sva_%s%s: %s: %s" % ({"signed": "signed", "fvs": "fvs_trees", "iso": "iso_trees", "signed_tbb": "signed_tbb", "fvs_tbb": "fvs_trees_tbb", "iso_tbb": "iso_trees_tbb"}[alg], dom, kind, msg))
@@ -504,6 +704,113 @@ def check(tier, seed):
                 nbit += 1
         elif alg == "signed":
             pass                                   # no answer: reported by judge
+        if i in tmodel:
+            if canon(io[i]) == canon_model(tmodel[i]):
+                ntrees_bit += 1
+            elif any(not is_known(fk, alg, es, k, io[i]) for k, _ in probs):
+                pass                               # already reported with its input
+            else:
+                report("corr-trees", i, "bit-exact correspondence mcb_sva_%s_trees vs extracted TreesFloatModel (cycles in emission order incl. empty ones, returned double; "
+                       "recovered root order, feedback vertex set and std::sort arrangement) no longer checks; the implementation's answer %s"
+                       % (alg, "still satisfies the property text" if not probs else "fails only in the way of a known finding"), False,
+                       {"theorem_or_correspondence": "correspondence c09/trees: TreesFloatModel.tf_mcb_sva_trees_go vs harness/c09.cpp", "model": tmodel[i],
+                        "model_case": trees_model_case(lines[i], io[i])})
+    # ---- every matched known-finding run must be predicted by the model -------------------------------------------------------
+    pred = {}
+    by_run = {}
+    for i, kind in known_runs: by_run.setdefault(i, set()).add(kind)
+    for i, kinds in sorted(by_run.items()):
+        t = lines[i].split(); alg = t[1]; n, es, _ = parse_fgraph(t, 2); key = " ".join(t[2:])
+        def optc(key=key, n=n, es=es):
+            if key not in optcache: optcache[key] = opt_exact(n, es)
+            return optcache[key]
+        if alg == "iso":
+            how = None
+            if i in tmodel and canon(io[i]) == canon_model(tmodel[i]):
+                go = parse_go(tmodel[i])
+                if go is not None and (KIND_EMPTY not in kinds or "0" in go[3]): how = "bit-identical"
+        else:
+            how = model_explains(lines[i], io[i], kinds, n, es, optc, seq_iso.get(key))
+        for kind in kinds:
+            pk = pred.setdefault("%s / %s" % (alg, kind), [0, 0]); pk[1] += 1; pk[0] += how is not None
+        if how is None and alg != "iso":           # (a sequential run the model does not reproduce is already reported above)
+            report("known-unpredicted", i, "mcb_sva_iso_trees_tbb: a failure matching a known finding (%s) is NOT predicted by the binary64 trees model" % sorted(kinds), False,
+                   {"theorem_or_correspondence": "correspondence c09/trees: TreesFloatModel.tf_mcb_sva_trees_explain vs harness/c09.cpp"})
+    c.extra["known_finding_runs_predicted_by_model"] = {k: "%d of %d" % (a, b) for k, (a, b) in sorted(pred.items())}
+    # ---- per-phase answers: the real ShortestOddCycleLookup on the signed edge sets of the model's phases + random signed sets --
+    lcases = [cs for cs in lib.corpus_cases(PID) if cs.startswith("L ")]; lexp = [None] * len(lcases)
+    for i in tidx:
+        go = parse_go(tmodel[i])
+        if go is None or canon(io[i]) != canon_model(tmodel[i]) or not go[1]: continue
+        t = lines[i].split()
+        lcases.append(lookup_case(t[1], go[4], " ".join(t[2:]))); lexp.append(phase_answers(go))
+    gts = sorted({" ".join(lines[i].split()[2:]) for i in tidx})
+    c.rng.shuffle(gts)
+    for gt in gts[:120 if tier == "quick" else 1500]:
+        m = int(gt.split()[1])
+        if m == 0: continue
+        sets = []
+        for _ in range(5):
+            k = c.rng.choice([1, 1, 2, 3, max(1, m // 2)])
+            sets.append(sorted(c.rng.sample(range(m), min(k, m))))
+        for alg in TREE_ALGS:
+            lcases.append(lookup_case(alg, sets, gt)); lexp.append(None)
+    lio = lib.run_lines([exe], lcases)
+    lmo = lib.run_model("lookup", [lookup_model_case(cs, o) for cs, o in zip(lcases, lio)], group=GROUP)
+    nl = 0; nphase = 0
+    for cs, o, mo_, ex in zip(lcases, lio, lmo, lexp):
+        a, b = lookup_answers(o), lookup_answers(mo_)
+        c.count(cs, a is not None and any(x.startswith("F ") for x in a), bucket="lookup " + cs.split()[1] + (" phases-of-a-run" if ex is not None else " random-signed-sets"))
+        bad = None
+        if a is None or b is None or a != b: bad = "direct ShortestOddCycleLookup calls vs extracted TreesFloatModel.tf_lookup_direct (found / weight / edge set) no longer agree"
+        elif ex is not None and a != ex: bad = "the per-phase answers of the model's run are not what the real ShortestOddCycleLookup answers on the same signed edge sets"
+        else: nphase += len(a) if ex is not None else 0
+        if bad and nl < 3:
+            nl += 1
+            c.violation("bit-exact correspondence: " + bad, {"component": "c09", "case": cs, "impl": o, "model": mo_, "expected_phases": ex,
+                        "theorem_or_correspondence": "correspondence c09/lookup: TreesFloatModel.ts_lookup vs harness/c09.cpp (kind L)"}, False)
+    # ---- the acceptance model of TreesModel.v accepts every run without empty cycle ---------------------------------------------
+    aidx = [i for i in tidx if canon(io[i]) == canon_model(tmodel[i])]
+    aidx = [i for i in aidx if all(cy for cy in parse_out(io[i])[1])]
+    amo = lib.run_model("accept", [replay_model_case(lines[i], io[i], parse_out(io[i])[1]) for i in aidx], group=GROUP)
+    nacc = 0; naccdiff = 0; nrej = 0
+    for i, a in zip(aidx, amo):
+        ta = a.split()
+        if ta and ta[0] == "ACC":
+            nacc += 1
+            if hexnorm(ta[1]) != parse_out(io[i])[0].hex(): naccdiff += 1
+        elif nrej < 3:
+            nrej += 1
+            report("accept", i, "the acceptance model (TreesModel.mcb_sva_trees_accept over the collection as executed) rejects a run of mcb_sva_%s_trees that the "
+                   "scan-order model reproduces bit-exactly" % lines[i].split()[1], False,
+                   {"theorem_or_correspondence": "correspondence c09/trees: TreesFloatModel.tf_mcb_sva_trees_accept_dflt vs harness/c09.cpp", "accept": a})
+    # ---- trees (T) and collections (C) of the same graphs -----------------------------------------------------------------------
+    tgs = gts
+    tcases = [cs for cs in lib.corpus_cases(PID) if cs.startswith(("T ", "C "))] + ["T " + gt for gt in tgs] + ["C " + gt for gt in tgs]
+    tio = lib.run_lines([exe], tcases)
+    tm_t = lib.run_model("trees", [" ".join(cs.split()[1:]) for cs in tcases if cs.startswith("T ")], group=GROUP)
+    tm_c = lib.run_model("cands", [cands_model_case(cs, o) for cs, o in zip(tcases, tio) if cs.startswith("C ")], group=GROUP)
+    it_t, it_c = iter(tm_t), iter(tm_c)
+    nt = 0; strict = {}
+    for cs, o in zip(tcases, tio):
+        if cs.startswith("T "):
+            mline = next(it_t); what = "every SPTree field of every source (LexSPModel over binary64)"; corr = "c09/sptrees: TreesFloatModel.tf_sptrees_all"
+        else:
+            mline, st = strip_strict(next(it_c)); strict[st] = strict.get(st, 0) + 1
+            what = "the Horton / FVS / isometric collections in emission order with recorded weights (CandidatesModel over binary64, ISO builder with the std::map default)"
+            corr = "c09/collections: TreesFloatModel.tf_horton_cycles / tf_fvs_cycles / tf_iso_cycles"
+        c.count(cs, True, bucket="trees" if cs.startswith("T ") else "collections")
+        if normhex(o) != normhex(mline) and nt < 3:
+            nt += 1
+            c.violation("bit-exact correspondence: %s no longer agree with the real code" % what,
+                        {"component": "c09", "case": cs, "impl": o, "model": mline, "theorem_or_correspondence": "correspondence %s vs harness/c09.cpp" % corr}, False)
+    c.extra["trees_runs_bit_exact"] = ntrees_bit
+    c.extra["trees_runs_compared"] = len(tidx)
+    c.extra["lookup_calls_compared"] = sum(int(cs.split()[2]) for cs in lcases)
+    c.extra["run_phases_confirmed_by_direct_lookup"] = nphase
+    c.extra["acceptance_model"] = {"runs_replayed": len(aidx), "accepted": nacc, "accepted_with_a_total_differing_in_bits": naccdiff}
+    c.extra["sptree_and_collection_cases"] = len(tcases)
+    c.extra["generic_iso_model_vs_builder_as_executed"] = strict
     # ---- E-level: bidirectional_signed_dijkstra vs binary64 model ------------------------------
     bio = lib.run_lines([exe], bcases)
     bmo = lib.run_model("bidir", [" ".join(b.split()[1:]) for b in bcases], group=GROUP)
@@ -521,7 +828,7 @@ def check(tier, seed):
                          "theorem_or_correspondence": "correspondence c09/bidir: SignedModel.bidirectional_signed_dijkstra (binary64) vs harness/c09.cpp"}, False)
     c.extra["bidir_calls"] = len(bcases)
     c.extra["signed_bit_exact_runs"] = nbit
-    c.extra["graphs"] = len(lines) // 3
+    c.extra["graphs"] = len({" ".join(l.split()[2:]) for l in lines})
     c.extra["exact_domain_cases"] = nexact
     c.extra["d9_hits"] = {k: v[0] for k, v in hits.items()}
     for kind, (cnt, first) in sorted(hits.items()):
@@ -534,16 +841,21 @@ def check(tier, seed):
                      "the harness is compiled for x86-64 SSE2 with -ffp-contract=off: every double operation is one correctly rounded IEEE-754 binary64 operation, "
                      "as Coq's kernel primitives PrimFloat.add / PrimFloat.ltb (the only 'axioms' Print Assumptions lists) and OCaml's +. / < are",
                      "weights are finite doubles in [1e-3, 1e3]; closed_plus' DBL_MAX shortcut is never taken (the model adds plainly)",
+                     "tree-based variants: the feedback vertex set (pick oracle of greedy_fvs) and the arrangement std::sort leaves the candidates in are recovered from the "
+                     "harness, which runs the same builder and the same std::sort call as _mcb_sva_trees on the same sequence (std::sort is deterministic on equal input "
+                     "sequences); the model checks that the arrangement is a permutation, non-decreasing in the recorded weight",
                      "NOT proved, covered by this search only: a cycle is found in every phase under rounding, vertex-simplicity of the emitted cycles, the 1e-9 bound"],
         trusted_extra=["extraction library ExtrOCamlFloats (the one extra library of C09): PrimFloat.float/add/ltb/... -> module Float64 of Coq's kernel "
                        "(kernel/float64.ml: add x y = x +. y, lt x y = x < y), linked from the ocamlfind package coq-core.kernel with -rectypes; "
                        "ocaml/driver_c09.ml reads and prints hex floats (float_of_string / %h)",
                        "Python's fractions.Fraction / float.fromhex for the exact rational judge (own Horton + Gauss oracle on the integer-scaled graph)"],
-        explanation="The structural theorems hold for an arbitrary weight type (hence for binary64). This run ties the binary64 model to the code bit-exactly "
-                    "(signed variant and direct search calls) and judges every answer of the three sequential entry points in exact rational arithmetic: valid "
+        explanation="The structural theorems hold for an arbitrary weight type (hence for binary64). This run ties the binary64 models to the code bit-exactly "
+                    "(signed variant and direct search calls; tree-based variants: every shortest-path tree field, the three candidate collections, whole runs of "
+                    "mcb_sva_fvs_trees / mcb_sva_iso_trees incl. the empty cycles of known finding D9, every phase's lookup answer) and judges every answer of the three sequential entry points in exact rational arithmetic: valid "
                     "basis, returned value = sum of the emitted cycles (1e-9 relative), within 1e-9 relative of the true minimum. Failures of mcb_sva_iso_trees on "
                     "inexact weights of the kinds 'empty cycle emitted' / 'returned weight below the optimum' (D9) and 'valid basis, weight above the "
-                    "optimum' (D9b) are known findings; their stored witnesses were replayed first.")
+                    "optimum' (D9b) are known findings; their stored witnesses were replayed first, and every matched run is additionally checked to be PREDICTED by the binary64 trees "
+                    "model (coverage.known_finding_runs_predicted_by_model / known_finding_witnesses_predicted_by_model; theorems C09_iso_d9_in_model, C09_iso_d9b_in_model).")
 
 
 def replay(path):
@@ -552,6 +864,8 @@ def replay(path):
     exe, err = lib.build_cpp(**HARNESS)
     if not ok or exe is None:
         print("cannot build: ", log or err); return 1
+    if "case" not in r:
+        print("no case recorded (proof / build obligation):", r.get("what")); print("VIOLATION property=%s replay=%s" % (PID, path)); return 1
     line = r["case"]
     o = lib.run_lines([exe], [line], par=1)[0]
     print("case:", line); print("impl:", o)
@@ -560,17 +874,43 @@ def replay(path):
         m = lib.run_model("bidir", [" ".join(line.split()[1:])], par=1, group=GROUP)[0]; print("model:", m)
         cx = lambda s: " ".join(hexnorm(x) if k == 1 and s.startswith("F ") else x for k, x in enumerate(s.split()))
         if cx(m) != cx(o): bad = "differs from the binary64 model"
+    elif line.startswith("T "):
+        m = lib.run_model("trees", [" ".join(line.split()[1:])], par=1, group=GROUP)[0]; print("model:", m)
+        if normhex(m) != normhex(o): bad = "shortest-path trees differ from the binary64 model"
+    elif line.startswith("C "):
+        m, st = strip_strict(lib.run_model("cands", [cands_model_case(line, o)], par=1, group=GROUP)[0]); print("model:", m, "| generic ISO model:", st)
+        if normhex(m) != normhex(o): bad = "candidate collections differ from the binary64 model"
+    elif line.startswith("L "):
+        m = lib.run_model("lookup", [lookup_model_case(line, o)], par=1, group=GROUP)[0]; print("model:", m)
+        a, b = lookup_answers(o), lookup_answers(m)
+        if a is None or a != b: bad = "lookup answers differ from the binary64 model"
+        elif r.get("expected_phases") and a != r["expected_phases"]: bad = "lookup answers differ from the phases of the model's run"
     else:
         t = line.split(); alg = t[1]; n, es, _ = parse_fgraph(t, 2)
-        probs = judge(n, es, o, lambda: opt_exact(n, es))
+        oc = {}
+        def optc():
+            if "v" not in oc: oc["v"] = opt_exact(n, es)
+            return oc["v"]
+        probs = judge(n, es, o, optc)
         fk = findings_by_kind()
-        unknown = [(k, msg) for k, msg in probs if not is_known(fk, alg, es, k)]
+        unknown = [(k, msg) for k, msg in probs if not is_known(fk, alg, es, k, o)]
         for k, msg in probs:
-            print(("known %s: " % fk[k]["id"] if (k, msg) not in unknown else "judge: ") + k + ": " + msg)
+            print(("known %s: " % fk[k][0]["id"] if (k, msg) not in unknown else "judge: ") + k + ": " + msg)
         if unknown: bad = unknown[0][0]
         if alg == "signed" and " RET " in " " + o:
             m = lib.run_model("signed", [model_case_of(line, o)], par=1, group=GROUP)[0]; print("model:", m)
             if canon_model(m) != canon(o) and not bad: bad = "differs from the binary64 model"
+        if alg in TREE_ALGS and " RET " in " " + o:
+            m = lib.run_model("run", [trees_model_case(line, o)], par=1, group=GROUP)[0]; print("model:", m)
+            if canon_model(m) != canon(o) and not bad: bad = "differs from the binary64 trees model"
+            if not bad and all(cy for cy in parse_out(o)[1]):
+                a = lib.run_model("accept", [replay_model_case(line, o, parse_out(o)[1])], par=1, group=GROUP)[0]; print("acceptance model:", a)
+                if not a.startswith("ACC"): bad = "rejected by the acceptance model"
+        known = {k for k, _ in probs if (k, _) not in unknown}
+        if known and alg in ("iso", "iso_tbb") and not bad:
+            how = model_explains(line, o, known, n, es, optc)
+            print("predicted by the binary64 trees model:", how)
+            if how is None: bad = "a failure matching a known finding is not predicted by the model"
     print("result:", bad)
     if bad:
         print("VIOLATION property=%s replay=%s" % (PID, path)); return 1
